@@ -218,7 +218,7 @@ def describe(rep):
         'file. Block decomposition: CrossHair contracts over symbolic grid sizes / rank counts. Bit-exact numpy round trips of every dtype and memory layout (C, Fortran, transposed, strided) are '
         'concrete side conditions on real temporary files (numpy tofile/fromfile are trusted).'
     )
-    rep.rule = 'case = execution path of the real I/O code on the symbolic file (crash location class x index sign x ...; overwrite protection with the handle created after or BEFORE the file)'
+    rep.rule = 'case = execution path of the real I/O code on the symbolic file (crash location class x index sign x ...; overwrite protection with the handle created after or BEFORE the file, and addField on the refused handle)'
     rep.assume('numpy tofile/fromfile write/read exactly nbytes at the handle position (environment stub contract)',
                'os.path.getsize returns the byte length; a crash leaves a prefix of the bytes of the interrupted write',
                'file system offsets are mathematical integers')
